@@ -139,8 +139,11 @@ def energy_from_tof(*, tof: Variable, Ltotal: Variable) -> Variable:
 
 def _energy_transfer_t0(energy, tof, length):
     dtype = _common_dtype(energy, tof)
-    c = as_float_type(_energy_constant(elem_unit(energy), tof, length), energy)
-    return length.astype(dtype, copy=False) * sc.sqrt(c / energy)
+    # The magnitude of the constant depends on the units of energy, tof, and length
+    # (1e-47 for J, s, angstrom); keep it in double precision until it has been
+    # combined with the length and the energy.
+    c = _energy_constant(elem_unit(energy), tof, length)
+    return (length * sc.sqrt(c / energy)).astype(dtype, copy=False)
 
 
 def energy_transfer_direct_from_tof(
